@@ -69,15 +69,31 @@ Definition fvalidate (v_value : pyval) : res pyval :=
    else Ok PNone)
    | Err t3 => if pyerr_eqb t3 OverflowErr then Err ValueErr else Err t3
    end)).
-Lemma fv1 v : BaseFloatType__validate v = fvalidate v. Proof. reflexivity. Qed.
-Lemma fv2 v : XsdDouble__validate v = fvalidate v. Proof. reflexivity. Qed.
-Lemma fv3 v : ST_AxisUnit__validate__from_BaseFloatType v = fvalidate v. Proof. reflexivity. Qed.
-
 Lemma f_of_Z_cases z : (exists m e, f_of_Z z = Ok (Fin m e)) \/ f_of_Z z = Err OverflowErr.
 Proof.
   unfold f_of_Z. pose proof (round_dy_not_nan z 0) as Hn.
   destruct (round_dy z 0); try congruence; eauto.
 Qed.
+
+(** a generated validator equals the reference [fvalidate] on every value: by cases on the value, so that the
+    statement survives a restructuring of the source (validate calling validate_float first, a named constant
+    for the two infinities, ...) as long as the behaviour is the same *)
+Ltac fv_eq_tac :=
+  let v := fresh "v" in
+  intros v; destruct v as [z|b|f|s0| |l|n]; unfold fvalidate; unfold_gen;
+  cbn [py_isinstance existsb isinstance1 as_bool bind py_truth negb orb py_float pyerr_eqb];
+  try reflexivity;
+  try (destruct (f_of_Z_cases z) as [(m & e & E)|E]; rewrite ?E; reflexivity);
+  try (destruct b; vm_compute; reflexivity);
+  try (destruct f as [m e| | |]; vm_compute; reflexivity).
+
+Lemma fv1 : forall v, BaseFloatType__validate v = fvalidate v. Proof. fv_eq_tac. Qed.
+Lemma fv2 : forall v, XsdDouble__validate v = fvalidate v. Proof. fv_eq_tac. Qed.
+(** ST_AxisUnit.validate: the float validator, then strictly positive *)
+Definition axvalidate (v : pyval) : res pyval :=
+  _ <- fvalidate v ;; t <- py_le v (PFloat (Fin 0 0)) ;; if t then Err ValueErr else Ok PNone.
+Lemma fv3 : forall v, ST_AxisUnit__validate v = axvalidate v. Proof. unfold axvalidate. fv_eq_tac. Qed.
+
 
 Definition fclass (v : pyval) : res pyfloat :=
   match v with
@@ -106,6 +122,13 @@ Proof.
     unfold py_ne. cbn [py_eqb as_num cmp_num]. rewrite f_cmp_fin, Z.compare_refl.
     split; [|split; reflexivity]. reflexivity.
 Qed.
+
+Lemma BaseFloatType_validate_spec v :
+  match fclass v with
+  | Ok f => BaseFloatType__validate v = Ok PNone /\ py_float v = Ok (PFloat f) /\ f_is_finite f = true
+  | Err e => BaseFloatType__validate v = Err e /\ (e = TypeErr \/ e = ValueErr)
+  end.
+Proof. rewrite fv1. apply fvalidate_spec. Qed.
 
 Lemma f_of_Z_finite z x : f_of_Z z = Ok x -> f_is_finite x = true.
 Proof.
@@ -151,7 +174,7 @@ Theorem W_AxisUnit_partial : forall v s,
   float_written v s /\ py_le v (PFloat (Fin 0 0)) = Ok false.
 Proof.
   intros v s H.
-  unfold ST_AxisUnit__to_xml, ST_AxisUnit__validate, ST_AxisUnit__convert_to_xml in H. rewrite fv3 in H.
+  unfold ST_AxisUnit__to_xml, ST_AxisUnit__convert_to_xml in H. rewrite fv3 in H. unfold axvalidate in H.
   pose proof (fvalidate_spec v) as S. destruct (fclass v) as [f|e].
   - destruct S as (S1 & S2 & S3). rewrite S1, S2 in H. cbn [bind] in H.
     destruct (py_le v (PFloat (Fin 0 0))) as [[|]|] eqn:L; cbn [bind py_str] in H; try discriminate H.
@@ -168,7 +191,7 @@ Qed.
 Theorem Rej_AxisUnit : forall v e, ST_AxisUnit__to_xml v = Err e -> e = TypeErr \/ e = ValueErr.
 Proof.
   intros v e H.
-  unfold ST_AxisUnit__to_xml, ST_AxisUnit__validate, ST_AxisUnit__convert_to_xml in H. rewrite fv3 in H.
+  unfold ST_AxisUnit__to_xml, ST_AxisUnit__convert_to_xml in H. rewrite fv3 in H. unfold axvalidate in H.
   pose proof (fvalidate_spec v) as S. destruct (fclass v) as [f|e'] eqn:FC.
   - destruct S as (S1 & S2 & S3). rewrite S1, S2 in H. cbn [bind] in H.
     destruct (py_le v (PFloat (Fin 0 0))) as [[|]|e2] eqn:L; cbn [bind py_str] in H; try discriminate H.
